@@ -31,14 +31,16 @@ Class NumX (T : Type) := {
    objective from the same tree, so model and Numba perform the same operations in the same order) *)
 Inductive expr (T : Type) : Type :=
 | EX | EP (i : nat) | EC (c : T)
+| EV (i : nat)      (* component i of a vector argument (nelder_mead objectives) *)
 | EAdd (a b : expr T) | ESub (a b : expr T) | EMul (a b : expr T) | EDiv (a b : expr T)
 | ENeg (a : expr T).
-Arguments EX {T}. Arguments EP {T}. Arguments EC {T}. Arguments EAdd {T}. Arguments ESub {T}.
+Arguments EX {T}. Arguments EP {T}. Arguments EC {T}. Arguments EV {T}. Arguments EAdd {T}. Arguments ESub {T}.
 Arguments EMul {T}. Arguments EDiv {T}. Arguments ENeg {T}.
 
 Fixpoint eeval {T} {NX : NumX T} (e : expr T) (ps : list T) (x : T) : T :=
   match e with
   | EX => x
+  | EV _ => x
   | EP i => nth i ps nzero
   | EC c => c
   | EAdd a b => nadd (eeval a ps x) (eeval b ps x)
@@ -406,3 +408,187 @@ Definition brent_max (a b xtol : T) (maxiter : Z) : bm_outcome :=
 End BrentMax.
 
 End RootFinding.
+
+(* ------------------------------------------------------------------ nelder_mead
+   quantecon/optimize/nelder_mead.py: nelder_mead -> _initialize_simplex, _nelder_mead_algorithm (rho chi gamma
+   sigma passed in from Gen/Consts), _check_bounds, _neg_bounded_fun.  Function values live in T + {+inf}
+   (np.inf is the penalty outside the bounds); vertices are lists, the order array sort_ind a list of nat. *)
+Fixpoint eevalv {T} {NX : NumX T} (e : expr T) (ps : list T) (xs : list T) : T :=
+  match e with
+  | EX => nth 0 xs nzero
+  | EV i => nth i xs nzero
+  | EP i => nth i ps nzero
+  | EC c => c
+  | EAdd a b => nadd (eevalv a ps xs) (eevalv b ps xs)
+  | ESub a b => nsub (eevalv a ps xs) (eevalv b ps xs)
+  | EMul a b => nmul (eevalv a ps xs) (eevalv b ps xs)
+  | EDiv a b => ndiv (eevalv a ps xs) (eevalv b ps xs)
+  | ENeg a => nopp (eevalv a ps xs)
+  end.
+
+Inductive ext (T : Type) : Type := Fin (v : T) | PInf.
+Arguments Fin {T}. Arguments PInf {T}.
+
+Inductive nm_outcome (T : Type) : Type :=
+| NMErr                                     (* ValueError of _check_params (a lower bound above its upper bound) *)
+| NMFuel                                    (* model fuel exhausted: not a value the code can return *)
+| NMRes (x : list T) (neg_fun : ext T)      (* fun = -neg_fun (-inf when neg_fun = PInf) *)
+        (success : bool) (nit : Z) (final_simplex : list (list T)).
+Arguments NMErr {T}. Arguments NMFuel {T}. Arguments NMRes {T}.
+
+Section NelderMead.
+Context {T : Type} {NX : NumX T}.
+Variable f : list T -> T.
+Variable bounds : list (T * T).             (* [] = no bounds (shape (0,2)) *)
+Variables (rho chi gam sig : T).            (* 1.0 2.0 0.5 0.5 *)
+Variables (nonzdelt zdelt : T).             (* 0.05 0.00025 *)
+
+Fixpoint vmap2 (g : T -> T -> T) (a b : list T) : list T :=
+  match a, b with x :: a', y :: b' => g x y :: vmap2 g a' b' | _, _ => [] end.
+Definition vadd := vmap2 nadd.
+Definition vsub := vmap2 nsub.
+Definition vscale (c : T) (a : list T) : list T := map (nmul c) a.
+Definition vdivs (a : list T) (c : T) : list T := map (fun x => ndiv x c) a.
+Fixpoint nofnat (n : nat) : T := match n with O => nzero | S n' => nadd (nofnat n') none_ end.
+
+Fixpoint upd {A} (l : list A) (i : nat) (v : A) : list A :=
+  match l, i with
+  | [], _ => []
+  | _ :: r, O => v :: r
+  | x :: r, S i' => x :: upd r i' v
+  end.
+
+(* comparisons of values in T + {+inf} as IEEE does them (no nan among them) *)
+Definition ext_lt (a b : ext T) : bool :=
+  match a, b with
+  | Fin x, Fin y => nltb x y
+  | Fin _, PInf => true
+  | PInf, _ => false
+  end.
+Definition ext_min (a b : ext T) : ext T := if ext_lt b a then b else a.
+(* a - b < tol: inf - inf = nan and inf - y = inf compare false; x - inf = -inf compares true *)
+Definition ext_diff_lt (a b : ext T) (tol : T) : bool :=
+  match a, b with
+  | Fin x, Fin y => nltb (nsub x y) tol
+  | Fin _, PInf => true
+  | PInf, _ => false
+  end.
+
+(* _check_bounds: (lo <= x).all() and (x <= hi).all() *)
+Fixpoint in_bounds_go (x : list T) (b : list (T * T)) : bool :=
+  match x, b with
+  | xi :: x', (lo, hi) :: b' => nleb lo xi && nleb xi hi && in_bounds_go x' b'
+  | _, _ => true
+  end.
+Definition in_bounds (x : list T) (b : list (T * T)) : bool := in_bounds_go x b.
+Definition neg_fun (x : list T) : ext T := if in_bounds x bounds then Fin (nopp (f x)) else PInf.
+
+(* _initialize_simplex *)
+Definition init_simplex (x0 : list T) : list (list T) :=
+  x0 :: map (fun i => let xi := nth i x0 nzero in
+                      upd x0 i (if neqb xi nzero then zdelt else nmul xi (nadd none_ nonzdelt)))
+            (seq 0 (length x0)).
+
+(* ndarray.argsort() as Numba runs it on at most 15 entries: insertion sort, stable *)
+Fixpoint ins_sorted (vals : list (ext T)) (k : nat) (l : list nat) : list nat :=
+  match l with
+  | [] => [k]
+  | e :: r => if ext_lt (nth k vals PInf) (nth e vals PInf) then k :: e :: r else e :: ins_sorted vals k r
+  end.
+Definition argsort (vals : list (ext T)) : list nat :=
+  fold_left (fun acc k => ins_sorted vals k acc) (seq 0 (length vals)) [].
+
+Record nm := { vs : list (list T); fv : list (ext T); si : list nat; xbar : list T; lv : T; nit : Z }.
+
+Definition vget (V : list (list T)) (i : nat) : list T := nth i V [].
+Definition fget (F : list (ext T)) (i : nat) : ext T := nth i F PInf.
+
+(* x_bar = vertices[sort_ind[:n]].sum(axis=0) / n *)
+Definition centroid (V : list (list T)) (idx : list nat) (n : nat) : list T :=
+  map (fun j => ndiv (fold_left (fun s i => nadd s (nth j (vget V i) nzero)) idx nzero) (nofnat n)) (seq 0 n).
+
+Definition nm_init (x0 : list T) : nm :=
+  let n := length x0 in
+  let V := init_simplex x0 in
+  let F := map neg_fun V in
+  let S := argsort F in
+  {| vs := V; fv := F; si := S; xbar := centroid V (firstn n S) n; lv := none_; nit := 0 |}.
+
+(* the `if not shrink` block after vertices[worst] has been replaced by xnew *)
+Fixpoint insert_first (F : list (ext T)) (w : nat) (pre l : list nat) : option (list nat) :=
+  match l with
+  | [] => None
+  | j :: r => if ext_lt (fget F w) (fget F j) then Some (rev pre ++ w :: removelast (j :: r))
+              else insert_first F w (j :: pre) r
+  end.
+Definition nm_replace (s : nm) (n w : nat) (xnew : list T) (lvmul : T) : nm :=
+  let V := upd (vs s) w xnew in
+  let F := upd (fv s) w (neg_fun xnew) in
+  let S := match insert_first F w [] (si s) with Some S' => S' | None => si s end in
+  {| vs := V; fv := F; si := S;
+     xbar := vadd (xbar s) (vdivs (vsub (vget V w) (vget V (nth n S O))) (nofnat n));
+     lv := nmul (lv s) lvmul; nit := (nit s + 1)%Z |}.
+
+(* how the shrink step rewrites sort_ind[1:]:  `sort_ind[1:][f_val[sort_ind[1:]].argsort()]`
+   (the pinned code stored the positions `argsort() + 1` instead: Findings.v) *)
+Definition shrink_order (tail_ : list nat) (perm : list nat) : list nat := map (fun p => nth p tail_ O) perm.
+
+Definition nm_shrink (s : nm) (n b w : nat) (sig_n : T) : nm :=
+  let tail_ := tl (si s) in
+  let '(V, F) := fold_left (fun (VF : list (list T) * list (ext T)) i =>
+                    let '(V, F) := VF in
+                    let vb := vget V b in
+                    let vi := vadd vb (vscale sig (vsub (vget V i) vb)) in
+                    (upd V i vi, upd F i (neg_fun vi))) tail_ (vs s, fv s) in
+  let S := b :: shrink_order tail_ (argsort (map (fget F) tail_)) in
+  let vb := vget V b in
+  {| vs := V; fv := F; si := S;
+     xbar := vadd (vadd vb (vscale sig (vsub (xbar s) vb))) (vdivs (vsub (vget V w) (vget V (nth n S O))) (nofnat n));
+     lv := nmul (lv s) sig_n; nit := (nit s + 1)%Z |}.
+
+(* one pass of the while loop after the termination test *)
+Definition nm_step (s : nm) (n : nat) (sig_n : T) : nm :=
+  let b := nth 0 (si s) O in
+  let w := nth n (si s) O in
+  let xb := xbar s in
+  let xr := vadd xb (vscale rho (vsub xb (vget (vs s) w))) in
+  let fr := neg_fun xr in
+  let fb := fget (fv s) b in
+  let fw := fget (fv s) w in
+  if negb (ext_lt fr fb) && ext_lt fr (fget (fv s) (nth (n - 1) (si s) O)) then nm_replace s n w xr rho
+  else if ext_lt fr fb then
+    let xe := vadd xb (vscale chi (vsub xr xb)) in
+    if ext_lt (neg_fun xe) fr then nm_replace s n w xe (nmul rho chi) else nm_replace s n w xr rho
+  else
+    let temp := vscale gam (vsub xr xb) in
+    let '(xc, upd_) := if ext_lt fr fw then (vadd xb temp, nmul rho gam) else (vsub xb temp, gam) in
+    if ext_lt (neg_fun xc) (ext_min fr fw) then nm_replace s n w xc upd_
+    else nm_shrink s n b w sig_n.
+
+Definition nm_done (s : nm) (n : nat) (tol_f tol_x : T) (max_iter : Z) : bool * bool :=   (* (stop, fail) *)
+  let fail := (max_iter <=? nit s)%Z in
+  let term_f := ext_diff_lt (fget (fv s) (nth n (si s) O)) (fget (fv s) (nth 0 (si s) O)) tol_f in
+  let term_x := nltb (lv s) tol_x in
+  (term_x || term_f || fail, fail).
+
+Fixpoint nm_loop (fuel : nat) (s : nm) (n : nat) (sig_n tol_f tol_x : T) (max_iter : Z) : option (nm * bool) :=
+  let '(stop, fail) := nm_done s n tol_f tol_x max_iter in
+  if stop then Some (s, fail)
+  else match fuel with
+       | O => None
+       | S k => nm_loop k (nm_step s n sig_n) n sig_n tol_f tol_x max_iter
+       end.
+
+Fixpoint npow (x : T) (n : nat) : T := match n with O => none_ | S n' => nmul x (npow x n') end.
+
+Definition nelder_mead (x0 : list T) (tol_f tol_x : T) (max_iter : Z) : nm_outcome T :=
+  if existsb (fun lh => nltb (snd lh) (fst lh)) bounds then NMErr
+  else
+    let n := length x0 in
+    match nm_loop (S (Z.to_nat max_iter)) (nm_init x0) n (npow sig n) tol_f tol_x max_iter with
+    | None => NMFuel
+    | Some (s, fail) =>
+      let b := nth 0 (si s) O in
+      NMRes (vget (vs s) b) (fget (fv s) b) (negb fail) (nit s) (vs s)
+    end.
+End NelderMead.
